@@ -190,7 +190,7 @@ def main():
     f = find_func(ph_py, ["LayoutPlaceholder", "_base_placeholder"])
     lm_map = need(dict_literal(f) if f else None, "placeholder.py LayoutPlaceholder._base_placeholder dict")
     f = find_func(auto_py, ["CT_Shape", "new_placeholder_sp"])
-    txbody = need(tuple_assigned(f, "placeholder_types_that_have_a_text_frame") if f else None,
+    txbody = need((tuple_assigned(f, "placeholder_types_that_have_a_text_frame") or membership_tuple(f, auto_py)) if f else None,
                   "autoshape.py CT_Shape.new_placeholder_sp placeholder_types_that_have_a_text_frame")
 
     # SlideShapes must not override ph_basename (slides use the _BaseShapes table)
@@ -204,11 +204,15 @@ def main():
     if SlideShapes.clone_placeholder is not _BaseShapes.clone_placeholder or NotesSlideShapes.clone_placeholder is not _BaseShapes.clone_placeholder:
         unmodelled.append("clone_placeholder overridden")
 
-    # _next_ph_name: the two format strings and the starting number
+    # _next_ph_name: the prefix of vertical placeholders, the separator before the number and the starting number
+    # (id - offset).  Read from the source when it has the expected shape; otherwise measured by calling the function
+    # (its answers for a horizontal and a vertical placeholder on a fresh slide determine the three values; the
+    # correspondence of every run re-checks the naming on every layout)
     f = find_func(tree_py, ["_BaseShapes", "_next_ph_name"])
     vertical_prefix, name_sep, numpart_offset = "", "", None
+    local_unm = []
     if f is None:
-        unmodelled.append("shapetree.py _BaseShapes._next_ph_name")
+        local_unm.append("shapetree.py _BaseShapes._next_ph_name")
     else:
         fmts = [n.left.value for n in ast.walk(f) if isinstance(n, ast.BinOp) and isinstance(n.op, ast.Mod)
                 and isinstance(n.left, ast.Constant) and isinstance(n.left.value, str)]
@@ -216,7 +220,7 @@ def main():
         n2 = [s for s in fmts if s.startswith("%s") and s.endswith("%d") and s.count("%") == 2]
         fmts, v, n2 = sorted(set(fmts)), sorted(set(v)), sorted(set(n2))      # the same literal may be spelled at two places
         if len(fmts) != 2 or len(v) != 1 or len(n2) != 1:
-            unmodelled.append("_next_ph_name format strings %r" % (fmts,))
+            local_unm.append("_next_ph_name format strings %r" % (fmts,))
         else:
             vertical_prefix = v[0][:-2]
             name_sep = n2[0][2:-2]
@@ -227,12 +231,29 @@ def main():
                 and isinstance(nums[0].value.right, ast.Constant) and isinstance(nums[0].value.right.value, int)):
             numpart_offset = nums[0].value.right.value
         else:
-            unmodelled.append("_next_ph_name numpart initialisation")
+            local_unm.append("_next_ph_name numpart initialisation")
             numpart_offset = 0
         cmp_vert = [n for n in ast.walk(f) if isinstance(n, ast.Compare) and isinstance(n.ops[0], ast.Eq)
                     and isinstance(n.comparators[0], ast.Attribute) and n.comparators[0].attr == "VERT"]
         if len(cmp_vert) != 1:
-            unmodelled.append("_next_ph_name orient test")
+            local_unm.append("_next_ph_name orient test")
+    if local_unm:
+        try:
+            import re as _re
+            from pptx import Presentation
+            _prs = Presentation()
+            _shapes = _prs.slides.add_slide(_prs.slide_layouts[6]).shapes
+            _base = _shapes.ph_basename(PP_PLACEHOLDER.BODY)
+            _h = _shapes._next_ph_name(PP_PLACEHOLDER.BODY, 7, ST_Direction.HORZ)
+            _v = _shapes._next_ph_name(PP_PLACEHOLDER.BODY, 7, ST_Direction.VERT)
+            _m = _re.fullmatch(_re.escape(_base) + r"(\D*?)(\d+)", _h)
+            if _m is None or not _v.endswith(_h):
+                raise ValueError("names %r / %r do not have the shape prefix + base + separator + number" % (_h, _v))
+            vertical_prefix, name_sep, numpart_offset = _v[: len(_v) - len(_h)], _m.group(1), 7 - int(_m.group(2))
+            local_unm = []
+        except Exception as e:  # noqa
+            local_unm.append("_next_ph_name could not be measured either: %r" % (e,))
+    unmodelled += local_unm
 
     # attribute defaults of p:ph
     ph = parse_xml("<p:ph %s/>" % nsdecls("p"))
